@@ -92,6 +92,10 @@ def install(M):
                 d = dict(zip(names, a))
                 d.update(kw)
                 it.p.effect('ConnectTCP', d)
+                fac = d.get('factory')
+                if isinstance(fac, Obj) and '_ghost' in fac.f:
+                    g = fac.f['_ghost']
+                    g.f['n_pending'] = M.binop(it, 'Add', g.f['n_pending'], 1)
                 return Obj('Connector', {'transport': Opaque('connector transport'), 'args': d})
             return bound('reactor.connectTCP', connectTCP)
         if attr in ('run', 'stop', 'suggestThreadPoolSize', 'addSystemEventTrigger'):
